@@ -1075,8 +1075,51 @@ func (rn *runner) runSeq(sq *seqSpec) seqResult {
 			res.suspicious = true
 		}
 		if code >= 400 && added > 0 && rpSite == "" && fpSite == "" {
-			c.Fail("rejected-request-stored-rows:"+ep,
-				fmt.Sprintf("%s request answered %d but %d of its rows were appended to the write buffer (and are flushed to storage later)", r.Ep, code, added),
+			// WHY was it rejected? A different cause is a different key.
+			nameBad := !api.VerifC04ValidDB(o.db)
+			for _, m := range o.vmeas {
+				if !api.VerifC04ValidMeas(m) {
+					nameBad = true
+				}
+			}
+			writeFailed := false
+			for _, w := range ws {
+				if w.rejected() {
+					writeFailed = true
+				}
+				if w.t != nil {
+					for _, cdef := range w.t.Cols {
+						if cdef.Name == "" {
+							writeFailed = true
+						}
+					}
+				}
+			}
+			for _, rc := range recs {
+				if rc == "N" {
+					writeFailed = true
+				}
+			}
+			var cls, why string
+			switch {
+			case code < 500 && nameBad:
+				cls = "name-validation"
+				why = "the request was rejected by database/measurement NAME VALIDATION, which must run before anything is buffered"
+			case code < 500:
+				cls = fmt.Sprintf("rejected-%d", code)
+				why = "the request was rejected with a 4xx"
+			case writeFailed:
+				cls = "write-error-after-earlier-record"
+				why = "the per-record write loop (ArrowBuffer.Write / the handler's per-measurement loop) stopped at a record that failed convertColumnsToTyped (or is of an unknown type / has an empty column name) and returned the error; the records of the same request written before it stay buffered"
+			case isImport(r.Ep):
+				cls = "flushall-error-after-own-write"
+				why = "the import wrote its own batch, then FlushAll returned an error for SOME buffer (e.g. a zero-row batch of an earlier request: `no time data in batch`) and the handler answered 500"
+			default:
+				cls = fmt.Sprintf("rejected-%d", code)
+				why = "the request was rejected with a 5xx that is not a record-conversion error"
+			}
+			c.Fail("rejected-request-stored-rows:"+ep+":"+cls,
+				fmt.Sprintf("%s request answered %d but %d of its rows were appended to the write buffer (and are flushed to storage later): %s", r.Ep, code, added, why),
 				rn.prefixReplay(sq, i))
 		}
 		if code < 300 && r.Exp != nil {
